@@ -303,10 +303,11 @@ def c01_cases(ctx):
         return gen(ctx, "Gen_C01", cfgtext(invariants=["Emit"], constants=consts), timeout=3000, heap="8g")
     if ctx.quick():
         cases += g([-7, -8], ALL_FLOWS, [0, 1, 24, 256], [1, 2, 3, 4])
+        cases += g([-7], ["msg", "helper", "sign", "cs"], [1], [7])
         cases += g([-7], ["msg", "detached", "helper"], [23, 255, 65535, 65536], [2, 5, 6])
         cases += g([-35, -36, -37, -38, -39], ["msg", "sign", "cs", "cs0", "cslist"], [2], [1, 4])
     else:
-        cases += g([-7, -8, -35, -36], ALL_FLOWS, [0, 1, 23, 24, 255, 256], [1, 2, 3, 4, 5, 6])
+        cases += g([-7, -8, -35, -36], ALL_FLOWS, [0, 1, 23, 24, 255, 256], [1, 2, 3, 4, 5, 6, 7])
         cases += g([-37, -38, -39], ALL_FLOWS, [0, 24, 256], [1, 2, 4])
         cases += g([-7, -8, -37], ["msg", "detached", "helper", "sign"], [65535, 65536], [2, 5, 6])
     return cases
@@ -370,7 +371,7 @@ def c11(ctx):
 @prop("C10")
 def c10(ctx):
     mc(ctx, "Vectors", cfgtext(), workers=1, timeout=300)      # CountersignStructure pinned to the RFC 9338 to-be-signed literals
-    cases = gen(ctx, "Gen_C10", cfgtext(invariants=["Emit"], constants=dict(Deep="FALSE" if ctx.quick() else "TRUE")), timeout=3000, heap="8g")
+    cases = gen(ctx, "Gen_C10", cfgtext(invariants=["Emit"], constants=dict(Deep="TRUE", DeepWidths="{0, 4}" if ctx.quick() else "{0, 1, 2, 4, 8}")), timeout=3000, heap="8g")
     events = harness(ctx, ["exec", "memflow"], cases)
     rejects = judge(ctx, "Trace_C10", events)
     return report(ctx, events, rejects,
